@@ -101,11 +101,12 @@ def declTy (k f : String) : Option Ty :=
 def rigidTy : Ty → Bool
   | .leaf => true
   | .iface i => i == ""
-  | .named n => namedTy n == some (some .leaf)
+  | .named n => n == "Comments" && namedTy n == some (some .leaf)
   | _ => false
 
 /-- all declared parts of a node of kind `k` are rigid (so two such nodes related by `isGen` are equal) -/
 def wholeRigid (k : String) : Bool :=
+  k != "Select" &&
   match fieldTys k with
   | some tys => tys.all rigidTy
   | none =>
@@ -156,20 +157,21 @@ deriving DecidableEq, Repr
 def pairTyped (k : String) (lp : LoopOver) (c : String) (a b : Opnd) : Bool :=
   match lp with
   | .none =>
-    (a == qWhole && b == pWhole &&
-      (if builtinCmp c || c == "!=" then wholeRigid k else rank1Fns.contains c && (domOf c).kinds.contains k))
+    (a == qWhole && b == pWhole && c != "strings.EqualFold" &&
+      (if c == "reflect.DeepEqual" || c == "bytes.Equal" || c == "!=" then wholeRigid k else rank1Fns.contains c && (domOf c).kinds.contains k))
     || (fieldNames k).any (fun f => a == qField f && b == pField f && f != "CompliantName()" && f != ""
           && ((Tree.fieldIndex k f).all fun j => !whereSlot true k j) && partOk c (declTy k f))
     || (a == qField "CompliantName()" && b == pField "CompliantName()" && c == "strings.EqualFold" && declTy k "v" == some .leaf)
   | .whole =>
-    (a == qElem && b == pElem && plainList k && !builtinCmp c && c != "!=" && calleeKeepsKind c)
+    (fieldTys k).isNone &&
+    ((a == qElem && b == pElem && plainList k && !builtinCmp c && c != "!=" && calleeKeepsKind c)
     || (match namedTy k with
         | some (some e) =>
           match elemKindOf (.named k) with
-          | some ek => plainList k && (placeholdersFor false ek).isEmpty && e != .ptr "" &&
+          | some ek => plainList k && (placeholdersFor false ek).isEmpty && ek != "Select" && ek != "ValTuple" && e != .ptr "" &&
               (fieldNames ek).any fun f => a == qElemField f && b == pElemField f && f != "CompliantName()" && f != "" && partOk c (declTy ek f)
           | none => false
-        | _ => false)
+        | _ => false))
   | .field f0 =>
     a == qFieldElem f0 && b == pFieldElem f0 && f0 != "CompliantName()" && f0 != "" && !builtinCmp c && c != "!=" && calleeKeepsKind c
       && (match (declTy k f0).bind listKindOf with | some l => plainList l | none => false)
@@ -183,13 +185,14 @@ def atomTyped (k : String) (lp : LoopOver) : AStep → Bool
     lp == .none &&
     ((a == qWhole && b == pWhole && plainList k && (namedTy k).isSome)
      || (fieldNames k).any fun f => a == qField f && b == pField f && f != "CompliantName()" && f != "" &&
+          ((Tree.fieldIndex k f).all fun j => !whereSlot true k j) &&
           (match (declTy k f).bind listKindOf with | some l => plainList l | none => false))
   | .ne a b => pairTyped k lp "!=" a b
-  | .cmp c a b => pairTyped k lp c a b
+  | .cmp c a b => c != "!=" && pairTyped k lp c a b
   | .cmpNeg _ _ _ => false
   | .cmpEsc e ea c a b =>
     lp == .none && e == "isWherePattern" && !builtinCmp c && c != "!=" && calleeKeepsKind c &&
-      (fieldNames k).any fun f => a == qField f && b == pField f && ea == pField f && f != "CompliantName()" && f != ""
+      (fieldNames k).any fun f => a == qField f && b == pField f && ea == pField f && f != "CompliantName()" && f != "" && (declTy k f).isSome
   | .bad => false
 
 def cstepTyped (k : String) : CStep → Bool
@@ -197,6 +200,7 @@ def cstepTyped (k : String) : CStep → Bool
   | .range o body =>
     (o == pWhole && plainList k && (namedTy k).isSome && body.all (atomTyped k .whole))
     || (fieldNames k).any fun f => o == pField f && f != "CompliantName()" && f != "" &&
+         ((Tree.fieldIndex k f).all fun j => !whereSlot true k j) &&
          (match (declTy k f).bind listKindOf with | some l => plainList l | none => false) && body.all (atomTyped k (.field f))
 
 def isCastOrShortcut : CStep → Bool
